@@ -795,3 +795,22 @@ def fam_cluster_hist(tier, base):
 
 ALSO["C10"] = ["cluster_conc", "cluster_hist"]
 ALSO["C11"] = ["cluster_hist"]
+
+
+# =========================================================================== Store calls, concurrent pairs: C13
+@family("store_conc")
+def fam_store_conc(tier, base):
+    r = verif.model_check("MC_StoreConc", "MC_StoreConc.cfg", timeout=3000, workers=1)
+    inputs, trace = base + ".in.ndjson", base + ".trace.ndjson"
+    n = verif.emit_inputs(r, inputs)
+    b = verif.build_driver("storecmp")
+    verif.run_driver_sharded(b, "TestStoreConc", inputs, trace, shards=8, timeout=7000)
+    os.remove(inputs)
+    viols, tr = verif.validate_trace("Trace_StoreConc", "Trace_StoreConc.cfg", trace)
+    lines = verif.read_lines(trace)
+    return dict(trace=trace, viols=viols, states=r.distinct, transitions=r.generated, configs=["MC_StoreConc.cfg", "Trace_StoreConc.cfg"], window=0,
+                traces={"*": len(lines)}, samples={"*": [json.loads(x) for x in lines[:3]]}, nontrivial={"C13": sum(1 for ln in lines if '"reached":true' in ln)},
+                notes="%d ordered pairs of store calls (add-workload with / without the processing marker, remove, update, create / delete marker) x 2 pre-states on the etcd store; call A parked before each of its etcd client requests, call B executed inside the window: %d windows; the count is read in the window and at the end" % (n, len(lines)))
+
+
+ALSO["C13"] = ["store_conc"]
